@@ -128,6 +128,17 @@ static void handle(size_t nw, char **w) {
 		}
 		free(o); free(key.p); free(b.p);
 	}
+	else if (!strcmp(op, "bca") && nw == 4) {        /* bca enc|dec key blk : block_cipher.c dispatch, aes128 object */
+		buf_t key = hex2buf(w[2]), b = hex2buf(w[3]); BLOCK_CIPHER_KEY k; uint8_t *o = malloc(16); int r;
+		const BLOCK_CIPHER *c = BLOCK_CIPHER_aes128();
+		if (key.n != 16 || b.n != 16 || c->key_size != 16 || c->block_size != 16) { printf("ERR bad-op"); }
+		else {
+			if (!strcmp(w[1], "enc")) r = block_cipher_set_encrypt_key(&k, c, key.p) == 1 && block_cipher_encrypt(&k, b.p, o) == 1;
+			else r = block_cipher_set_decrypt_key(&k, c, key.p) == 1 && block_cipher_decrypt(&k, b.p, o) == 1;
+			if (r) puthex(o, 16); else printf("ERR");
+		}
+		free(o); free(key.p); free(b.p);
+	}
 	else if (!strcmp(op, "ecbblocks") && nw == 5) {  /* ecbblocks enc|dec key data ip */
 		buf_t key = hex2buf(w[2]), d = hex2buf(w[3]); int ip = atoi(w[4]); SM4_KEY k;
 		uint8_t *in = dup_exact(d.p, d.n), *o = ip ? in : malloc(d.n ? d.n : 1);
